@@ -281,7 +281,16 @@ func cmdCheck(args []string) int {
 			}
 		}
 	}
+	genErr := map[string]bool{}
+	for _, r := range results {
+		if r.Err != nil {
+			genErr[r.Fn] = true
+		}
+	}
 	for _, l := range ledger {
+		if genErr[l.Fn] {
+			continue // already reported once as a generator error for that function
+		}
 		if !generated[l.Fn+"|"+l.Name] {
 			fails = append(fails, failure{fn: l.Fn, name: l.Name, reason: "contract-target-missing: the ledger obligation was not generated (function, loop or clause vanished)"})
 		}
